@@ -10,9 +10,19 @@ from ..lhamodel.crc16 import crc16
 LEVEL = 'exploration'
 
 
+class _Hung:
+    returncode, stdout, stderr = -999, '', ''
+
+
 def _run(exe, args):
-    r = subprocess.run([exe] + [str(a) for a in args], capture_output=True, text=True, env=build.san_env())
-    return r
+    # every job is bounded work (the largest, 'huge', is about two minutes); a generous wall-clock watchdog turns a routine
+    # that does not return into a verdict: re-run once, then reported
+    for attempt in (0, 1):
+        try:
+            return subprocess.run([exe] + [str(a) for a in args], capture_output=True, text=True, env=build.san_env(), timeout=1500 if args[0] == 'huge' else 900)
+        except subprocess.TimeoutExpired:
+            continue
+    return _Hung()
 
 
 def run(ctx):
@@ -52,6 +62,10 @@ def run(ctx):
     tot = {'pairs': 0, 'pairs2': 0, 'random': 0, 'long': 0, 'huge': 0, 'echo': 0}
     splits = 0
     for (exe, args), r in results:
+        if r.returncode == -999:
+            ctx.violation('no-return:' + args[0], 'lha_crc16_buf did not return: h_crc %s exceeded the watchdog twice (a single call on a buffer of %s bytes)'
+                          % (' '.join(map(str, args)), args[2] if args[0] == 'huge' else 'up to 2^26'), replay='h_crc ' + ' '.join(map(str, args)) + '\n', ext='txt')
+            continue
         if r.returncode != 0:
             if 'ERROR: AddressSanitizer' in r.stderr or 'runtime error' in r.stderr:
                 ctx.violation('sanitizer:' + args[0], 'sanitizer report in lha_crc16_buf driver: ' + r.stderr[:1500],
